@@ -36,6 +36,16 @@ def hoist(e_json, free):
     return case
 
 
+def _fresh_job(e):
+    """All free sets of one expression, smallest first, in a process that has not called collapse_constants before
+    (state left behind by earlier calls must not matter; here there is none but that of the expression's own calls)."""
+    from .common import use_repo
+    use_repo()
+    vs = exprgen.data_vars(e) + (["arr"] if "arr" in exprs.variables(e) else [])
+    subsets = [c for r in range(len(vs) + 1) for c in itertools.combinations(vs, r)]
+    return [hoist(e, fr) for fr in subsets[:8]]
+
+
 def _nodes(j):
     yield j
     for x in j[1:]:
@@ -85,6 +95,15 @@ def run(chk):
             subsets = subsets[:4] + subsets[-4:]
         for fr in subsets:
             cases.append(hoist(e, fr))
+    # the same calls without the history of this process: one fresh process per expression
+    import multiprocessing
+    import random as _random
+    from .common import NCPU
+    pick = _random.Random(chk.seed).sample(es, min(len(es), 320 if chk.quick else 4000))
+    # "spawn": a forked worker would inherit this process's history
+    with multiprocessing.get_context("spawn").Pool(NCPU, maxtasksperchild=1) as pool:
+        for lst in pool.map(_fresh_job, pick, chunksize=1):
+            cases.extend(lst)
     chk.stage("collapse")
     out = tlc.judge_batch("ExprContracts", cases, chunk=1500, chk=chk, jobs=12)
     chk.stage("tlc_judge")
